@@ -347,8 +347,8 @@ add(
       "decimal exponents -312..=-300 and 280..=295 (both ends of the table-product guard), -24..=-21, 21..=24 and 36..=39 (the ends of the one-operation path) x every significand 1 <= w < 10^19 x sign; 20 s per query",
       stubs=SMT_CUTS, args=["float_check.py", "--exps=" + _b, _L, "--jobs", "6", "--timeout-ms", "20000"], cost=150, timeout=850),
     H("s_float_fast_sampled", "smt", ["C07", "C08"], SMT_FUNCS,
-      "every 16th decimal exponent in -344..=344 and all of -6..=24 x every significand 1 <= w < 10^19 x sign; 20 s per query",
-      stubs=SMT_CUTS, args=["float_check.py", "--exps=" + _s, _L, "--jobs", "8", "--timeout-ms", "20000"], cost=250, timeout=850),
+      "every 16th decimal exponent in -344..=344 and all of -6..=24 x every significand 1 <= w < 10^19, sign flag false (the sign is decided by s_float_fast_bounds / _all); 20 s per query",
+      stubs=SMT_CUTS, args=["float_check.py", "--exps=" + _s, _L, "--neg", "false", "--jobs", "8", "--timeout-ms", "20000"], cost=100, timeout=850),
     H("s_float_fast_all", "smt", ["C02", "C07", "C08"], SMT_FUNCS,
       "every decimal exponent in -345..=345 x every significand 1 <= w < 10^19 x sign; 120 s per query",
       stubs=SMT_CUTS, args=["float_check.py", "--emin", "-345", "--emax", "345", _L, "--jobs", "14", "--timeout-ms", "120000"], tier=T, cost=1800, timeout=7200),
